@@ -429,15 +429,20 @@ UNARY_UNSUP = ('relu', 'abs', 'neg', 'leaky_relu')
 
 def rand_graph(g, rng, n_ops=6, allow_unsupported=True, allow_emb=True,
                in_kind=None, allow_bmm_const=True, allow_rsqrt=True,
-               export_consumed_p=0.15, only=None, dup_output_p=0.06):
+               export_consumed_p=0.15, only=None, dup_output_p=0.06, big_p=0.06):
   """Populates subgraph g with a random DAG; returns output tensor ids."""
   kind = in_kind or rng.choice(['r2', 'r3', 'r4'], p=[0.45, 0.2, 0.35])
+  # realistic widths once in a while: anything that only shows beyond 8 / 16 / 64 / 128 / 256 elements or channels (packing, alignment,
+  # per-channel tables, block sizes) is invisible on toy dimensions
+  big = bool(rng.random() < big_p)
+  if big:
+    g.classes.add('wide_tensors')
   if kind == 'r2':
-    x = g.inp((int(rng.integers(1, 3)), int(rng.choice([4, 6, 8]))))
+    x = g.inp((int(rng.integers(1, 3)), int(rng.choice([64, 100, 129, 257]) if big else rng.choice([4, 6, 8]))))
   elif kind == 'r3':
-    x = g.inp((int(rng.integers(1, 3)), int(rng.integers(2, 4)), int(rng.choice([4, 8]))))
+    x = g.inp((int(rng.integers(1, 3)), int(rng.integers(2, 4)), int(rng.choice([33, 64, 130]) if big else rng.choice([4, 8]))))
   else:
-    x = g.inp((1, int(rng.choice([4, 5, 6])), int(rng.choice([4, 5, 6])), int(rng.integers(1, 4))))
+    x = g.inp((1, int(rng.choice([4, 5, 6])), int(rng.choice([4, 5, 6])), int(rng.choice([8, 17, 33]) if big else rng.integers(1, 4))))
   avail = [x]
   consumed = set()
   if allow_emb and rng.random() < 0.15:
@@ -490,10 +495,10 @@ def rand_graph(g, rng, n_ops=6, allow_unsupported=True, allow_emb=True,
     k = str(rng.choice(cands))
     ins = [t]
     if k == 'fc':
-      outs = [g.fc(t, int(rng.choice([3, 4, 8])), bias=rng.random() < 0.7,
+      outs = [g.fc(t, int(rng.choice([17, 32, 65, 130]) if big else rng.choice([3, 4, 8])), bias=rng.random() < 0.7,
                    act=int(rng.choice([0, 1, 3])), keep=(r == 3 and rng.random() < 0.7))]
     elif k == 'conv':
-      outs = [g.conv(t, int(rng.integers(1, 4)), k=int(rng.choice([1, 3])),
+      outs = [g.conv(t, int(rng.choice([8, 17, 33]) if big else rng.integers(1, 4)), k=int(rng.choice([1, 3])),
                      stride=int(rng.choice([1, 2])), same=bool(rng.random() < 0.6) or min(sh[1], sh[2]) < 3,
                      bias=True, act=int(rng.choice([0, 1])))]
     elif k == 'dwconv':
@@ -509,7 +514,7 @@ def rand_graph(g, rng, n_ops=6, allow_unsupported=True, allow_emb=True,
         g.classes.add('fused_activation_pool')
       outs = [getattr(g, k)(t, act=pact)]
     elif k == 'bmm':
-      outs = [g.bmm(t, n_out=int(rng.choice([2, 4])), adj_y=bool(rng.random() < 0.4))]
+      outs = [g.bmm(t, n_out=int(rng.choice([17, 64]) if big else rng.choice([2, 4])), adj_y=bool(rng.random() < 0.4))]
       g.classes.add('bmm_const_rhs')
     elif k == 'bmm_act':
       u = pick(lambda u: rank(u) == 3 and g.shape[u][0] == sh[0] and g.shape[u][2] == sh[2])
@@ -947,9 +952,16 @@ SINGLE_OPS = {
 }
 
 
-def single_op_model(rng, variant, odd=False):
-  """One operator of the coverage table (plus what it needs to be well-formed)."""
-  o = (lambda a, b: int(rng.choice([a, b]))) if odd else (lambda a, b: a)
+def single_op_model(rng, variant, odd=False, wide=False):
+  """One operator of the coverage table (plus what it needs to be well-formed).  wide: feature / channel dimensions of realistic
+  size (x16 and off by one) for the variants whose shapes allow it."""
+  o0 = (lambda a, b: int(rng.choice([a, b]))) if odd else (lambda a, b: a)
+  WIDE_OK = ('fc', 'fc_nobias', 'fc_keep', 'conv_1x1', 'bmm_const', 'bmm_const_adj', 'bmm_rank2', 'bmm_rank2_adj', 'emb',
+             'add_const', 'sub_const', 'mul_const', 'softmax', 'tanh', 'logistic', 'gelu')
+  if wide and variant in WIDE_OK:
+    o = lambda a, b: o0(a, b) * 16 + int(rng.integers(0, 2))
+  else:
+    o = o0
 
   def f(g, rng):
     v = variant
